@@ -6,6 +6,7 @@ import (
 	"go/token"
 	"go/types"
 	"os"
+	"sort"
 	"strings"
 
 	"golang.org/x/tools/go/ssa"
@@ -83,6 +84,7 @@ func checkC02(c *Ctx) {
 	}
 	r.Floor("SAME-BRANCHES", 10)
 	tagValueRule(c, "TAG-VALUE", []string{pRT, pRT2, pFuncs})
+	literalValRule(c, "TAG-VALUE", []string{pRT, pRT2})
 	foldRules(c)
 	opNameRule(c)
 }
@@ -814,4 +816,58 @@ func foldSignSpec(c *Ctx, nu *ssa.Function, sub int64) int {
 		r.Ob("FOLD", "newUnaryExpr folds the sign into a "+kind+" exactly for a minus sign", t.Pos(nu.Pos()), okKind, detail)
 	}
 	return n
+}
+
+// literalValRule (TAG-VALUE, literal arms): the operator tables are extracted for operands of a non-literal kind
+// (see extractOpTables); an arm that answers a *literal* operand directly is covered by TAG-VALUE for the pairing of
+// Go type and tag, and by this rule for the value: the Val of a Bool/Integer/Float/String literal node is used in the
+// interpreters as it stands — never converted, negated or computed with — so a literal denotes in a fast path what
+// it denotes through RunExpr.
+func literalValRule(c *Ctx, rule string, pkgs []string) {
+	r, t := c.R, c.T
+	lit := map[string]bool{"BoolLiteral": true, "IntegerLiteral": true, "FloatLiteral": true, "StringLiteral": true}
+	n := 0
+	var bad []string
+	for _, pp := range pkgs {
+		for _, f := range t.PkgFuncs(pp) {
+			allInstrs(f, func(in ssa.Instruction) {
+				fa, ok := in.(*ssa.FieldAddr)
+				if !ok || fieldName(fa) != "Val" {
+					return
+				}
+				nm := strings.TrimPrefix(namedOf(fa.X.Type()), "ast.")
+				if !lit[nm] {
+					return
+				}
+				for _, ref := range *fa.Referrers() {
+					ld, ok := ref.(*ssa.UnOp)
+					if !ok || ld.Op != token.MUL {
+						continue
+					}
+					n++
+					for _, use := range *ld.Referrers() {
+						switch u := use.(type) {
+						case *ssa.Convert, *ssa.ChangeType:
+							bad = append(bad, fmt.Sprintf("%s converts %s.Val at %s", relName(f), nm, t.Pos(use.Pos())))
+						case *ssa.UnOp:
+							if u.Op == token.SUB || u.Op == token.NOT || u.Op == token.XOR {
+								bad = append(bad, fmt.Sprintf("%s applies %s to %s.Val at %s", relName(f), u.Op, nm, t.Pos(use.Pos())))
+							}
+						case *ssa.BinOp:
+							switch u.Op {
+							case token.ADD, token.SUB, token.MUL, token.QUO, token.REM, token.SHL, token.SHR, token.AND, token.OR, token.XOR:
+								if nm != "StringLiteral" || u.Op != token.ADD {
+									bad = append(bad, fmt.Sprintf("%s computes with %s.Val (%s) at %s", relName(f), nm, u.Op, t.Pos(use.Pos())))
+								}
+							}
+						}
+					}
+				}
+			})
+		}
+	}
+	sort.Strings(bad)
+	r.Ob(rule, "literal values are used as they stand in the interpreters", "", len(bad) == 0,
+		fmt.Sprintf("%d reads of a scalar literal's Val in the interpreter packages; %s — a literal answered by a fast path must denote what RunExpr's literal arm yields (the operator tables are extracted for non-literal operands)", n, strings.Join(bad, "; ")))
+	r.FloorN("reads of scalar literal values in the interpreters", n, 4)
 }
